@@ -177,6 +177,37 @@ def check(idx: Index, rep: Report, tier: str) -> str:
         r.fail(f.fq + ":returns", Finding("C21.R3", f.fq, "epilogue-missing", "not every return is preceded by an epilogue restoring the pushed registers", f.loc))
     if "if res.type in X86_CALLEE_SAVED_REGISTERS" in t:
         r.ok(f.fq + ":set", None)
+    # which registers count as callee-saved in the scan: the checked table, or an index set equal to the ABI's
+    t_ = unparse(f.node)
+    if "in X86_CALLEE_SAVED_REGISTERS" not in t_:
+        helper_calls = [c_ for c_ in calls_in(f.node, local=False) if isinstance(c_.func, ast.Name) and idx.try_func(PE, c_.func.id) is not None]
+        sets_ = []
+        for c_ in helper_calls:
+            h = idx.try_func(PE, c_.func.id)
+            for nm_ in {x.id for x in ast.walk(h.raw_node) if isinstance(x, ast.Name)}:
+                v_ = idx.module(PE).assigns.get(nm_)
+                if v_ is not None and isinstance(v_, ast.Call) and unparse(v_.func) in ("frozenset", "set", "tuple") and v_.args and isinstance(v_.args[0], (ast.Tuple, ast.List, ast.Set)):
+                    vals_: set[int] | None = set()
+                    for e_ in v_.args[0].elts:
+                        if isinstance(e_, ast.Constant) and isinstance(e_.value, int):
+                            vals_.add(e_.value)
+                        elif isinstance(e_, ast.Starred) and isinstance(e_.value, ast.Call) and unparse(e_.value.func) == "range" and all(isinstance(a_, ast.Constant) for a_ in e_.value.args):
+                            vals_ |= set(range(*[a_.value for a_ in e_.value.args]))
+                        else:
+                            vals_ = None
+                            break
+                    if vals_ is not None:
+                        sets_.append((nm_, vals_, v_))
+        if len(sets_) != 1:
+            raise AnalysisError(f"{f.fq}: the test that decides which written registers are callee-saved was not understood")
+        nm_, vals_, v_ = sets_[0]
+        by_name_ = _int_dict(idx, REG, "X86_INDEX_BY_NAME")
+        want_ = {by_name_[n_] for n_ in SYSV_CALLEE_SAVED if n_ in by_name_}
+        if vals_ == want_:
+            r.ok(f.fq + ":saved-set", f"{PE}: index set {sorted(vals_)} = callee-saved registers of the ABI")
+        else:
+            inv_ = {v: k for k, v in by_name_.items()}
+            r.fail(f.fq + ":saved-set", Finding("C21.R3", f.fq, f"callee-saved-indices:{nm_}", f"`{nm_} = {unparse(v_)}` evaluates to {sorted(vals_)}; the callee-saved registers of the System V ABI have the indices {sorted(want_)}: {sorted(inv_.get(i_, str(i_)) for i_ in want_ - vals_)} missing, {sorted(inv_.get(i_, str(i_)) for i_ in vals_ - want_)} extra - a function that writes a missing one does not save it", PE))
     # which operations are scanned for written callee-saved registers: only pure register getters may be left out
     comps = [n for n in walk_local(f.node) if isinstance(n, (ast.GeneratorExp, ast.SetComp, ast.ListComp)) and any(call_attr(g.iter) == "walk" for g in n.generators if isinstance(g.iter, ast.Call))]
     if len(comps) != 1:
@@ -213,6 +244,35 @@ def check(idx: Index, rep: Report, tier: str) -> str:
             continue
         if opv in {x.id for x in ast.walk(cond) if isinstance(x, ast.Name)}:
             raise AnalysisError(f"{f.fq}: filter `{ct}` on the scanned operations not understood")
+
+    # ---- R7: x86 canonicalization of additions with zero forwards the OTHER operand
+    from ..paths import enum_paths as _ep7
+
+    r = rep.rule("C21.R7", "the x86 add-zero canonicalization replaces `r + s` by the operand that is not the known zero", floor=1)
+    f7 = idx.func("xdsl/transforms/canonicalization_patterns/x86.py", "RS_Add_Zero.match_and_rewrite")
+    n7 = 0
+    for pth in _ep7(f7.node):
+        if not pth.feasible():
+            continue
+        walrus = {n_.target.id: unparse(n_.value) for n_ in ast.walk(f7.node) if isinstance(n_, ast.NamedExpr) and isinstance(n_.target, ast.Name)}
+        nf = {(re.sub(r"^(\w+)(?=\.)", lambda m__: walrus.get(m__.group(1), m__.group(1)), t_), p_) for t_, p_ in pth.nfacts()}
+        zeros = {m_.group(1) for t_, p_ in nf if p_ and (m_ := re.fullmatch(r"get_constant_value\((op\.\w+)\)\.value\.data == 0", t_))}
+        for k, e_ in enumerate(pth.effects):
+            if isinstance(e_, ast.Expr) and isinstance(e_.value, ast.Call) and unparse(e_.value.func) == "rewriter.replace" and len(e_.value.args) == 3:
+                n7 += 1
+                repl = pth.res(e_.value.args[2], k)
+                m_ = re.fullmatch(r"[\(\[](op\.\w+),?[\)\]]", repl)
+                inst = f"{f7.fq}:{repl}"
+                if not m_ or not zeros:
+                    raise AnalysisError(f"{f7.fq}: replacement `{repl}` under {sorted(nf)[:3]} not understood")
+                kept = m_.group(1)
+                operands = {"op.source", "op.register_in"}
+                if zeros - {kept} and kept in operands:
+                    r.ok(inst, f"{f7.loc} zero operand {sorted(zeros - {kept})}, result forwarded from {kept}")
+                else:
+                    r.fail(inst, Finding("C21.R7", f7.fq, f"add-zero-forwards-zero:{kept}", f"`{unparse(e_.value)}` replaces r + s by `{kept}` on a path where the operand known to be zero is {sorted(zeros)}: when the zero is `{kept}` itself (arith.addi %x, %c0 lowers to rs.add(register_in = mov 0, source = x)) the sum x + 0 becomes 0", f"{f7.module.relpath}:{e_.lineno}"))
+    if n7 == 0:
+        raise AnalysisError(f"{f7.fq}: no replacement found")
 
     r = rep.rule("C21.R4", "each arith operation is lowered to the x86 operation with the same stem", floor=4)
     v = idx.module(ARITH).assigns.get("X86_OP_BY_ARITH_BINARY_OP")
